@@ -371,4 +371,100 @@ theorem top_sim : ∀ f : Nat, TopSpec encF f
   | 0 => by intro toks rows _ hne; exact absurd rfl hne
   | f + 1 => top_step (top_sim f)
 
+def rootRec : ASTNode := { type := 1, value := default, children := [], parent := none }
+
+theorem parse_unfold (G : Nat) (toks : List Tok) (nodes0 : List ASTNode) :
+    parser_parse G (st encF toks nodes0) =
+      match parser_skip_comments G (st encF toks (nodes0 ++ [rootRec])) with
+      | none => none
+      | some a => match parser_assert_and_cunsume a.1 1 with
+        | none => none
+        | some b => match TW G G { self := b.1, root := (nodes0.length : Int), token := some b.2 } with
+          | .next v => (match parser_assert v.self v.self.next_token 2 with
+            | none => none
+            | some _ => match parser_assert_and_cunsume v.self 2 with
+              | none => none
+              | some c => some (c.1, v.root))
+          | .ret v r => some (v.self, r)
+          | _ => none := by
+  have hst : ({ lexer := (st encF toks nodes0).lexer, next_token := (st encF toks nodes0).next_token, nodes := nodes0 ++ [rootRec] } : Parser)
+      = st encF toks (nodes0 ++ [rootRec]) := rfl
+  have hd : ({ type := 1, value := (default : ASTNode).value, children := (default : ASTNode).children, parent := (default : ASTNode).parent } : ASTNode) = rootRec := rfl
+  simp only [parser_parse, parser_parse.body, Py.seq, Py.bind, Py.finish, Py.alloc, hd, hst, st_nodes]
+  cases parser_skip_comments G (st encF toks (nodes0 ++ [rootRec])) with
+  | none => rfl
+  | some a =>
+    simp only
+    cases parser_assert_and_cunsume a.1 1 with
+    | none => rfl
+    | some b =>
+      simp only
+      generalize hw : whileF parser_parse.while1_cond (parser_parse.while1_body G) G _ = res
+      have hw' : TW G G { self := b.1, root := (nodes0.length : Int), token := some b.2 } = res := hw
+      rw [hw']
+      cases res with
+      | next v =>
+        simp only
+        cases parser_assert v.self v.self.next_token 2 with
+        | none => rfl
+        | some x =>
+          simp only
+          cases parser_assert_and_cunsume v.self 2 with
+          | none => rfl
+          | some c => rfl
+      | _ => rfl
+
+/-- **`Parser._parse` as translated = the model's conversion up to the table**, with the model's fuel `N` explicit (`C15.convertWith`;
+`Asc.convertTokens` is `convertWith (length + 2)`) and any fuel `G ≥ 2 N` for the translated loops / recursion: an error of the model
+(other than its own fuel running out) ↦ an exception; rows ↦ the AST heap has grown from `nodes0 ++ [ROOT]` by subtrees of the ROOT whose
+table is exactly these rows (`Built`) -/
+theorem parse_refines (N G : Nat) (toks : List Tok) (nodes0 : List ASTNode) (hnb : NoBad toks) (hG : 2 * N ≤ G)
+    (hne : C15.convertWith N toks ≠ .error .fuel) :
+    match C15.convertWith N toks with
+    | .error _ => parser_parse G (st encF toks nodes0) = none
+    | .ok rows => ∃ t' nodes', parser_parse G (st encF toks nodes0) = some (st encF t' nodes', (nodes0.length : Int)) ∧
+        Built encF U (nodes0 ++ [rootRec]) nodes' nodes0.length nodes0.length (-1) (-1) 0 rows := by
+  rw [parse_unfold]
+  unfold C15.convertWith at hne ⊢
+  have hne0 : skipComments N toks ≠ .error .fuel := by
+    intro h; rw [h] at hne; exact hne rfl
+  obtain ⟨t0, h0, hn0, hs0⟩ := skip_comments_sim (encF := encF) N toks (nodes0 ++ [rootRec]) hnb hne0 G (by omega)
+  rw [h0] at hne ⊢
+  simp only [ok_bind, hs0] at hne ⊢
+  rw [expectLp_refines encF t0 _ hn0]
+  revert hne
+  cases h1 : expectLp t0 with
+  | error e => intro _; simp only [error_bind]
+  | ok t1 =>
+    have hn1 : NoBad t1 := noBad_drop hn0 [.lp] t1 (by simpa using expectLp_ok t0 t1 hn0 h1)
+    simp only [ok_bind]
+    intro hne
+    have hneT : parseTop N t1 [] ≠ .error .fuel := by
+      intro h; rw [h] at hne; exact hne rfl
+    have htop := top_sim (encF := encF) N t1 [] hn1 hneT G G
+      { self := st encF t1 (nodes0 ++ [rootRec]), root := (nodes0.length : Int), token := some (enc encF .lp) }
+      (nodes0 ++ [rootRec]) nodes0.length (by omega) hG rfl rfl (by simp)
+    revert htop hne
+    cases parseTop N t1 [] with
+    | error e =>
+      intro _ htop
+      simp only [TopPost] at htop
+      simp only [error_bind, htop]
+    | ok r =>
+      obtain ⟨tr, rows⟩ := r
+      intro hne htop
+      obtain ⟨v', nodes', new, g1, g2, g3, g4, g5, g6⟩ := htop
+      simp only [List.nil_append] at g4
+      subst g4
+      simp only [ok_bind, g1, g2, g3, st_next_token, assert_eq]
+      cases tr with
+      | nil => simp
+      | cons x rest =>
+        cases x with
+        | rp =>
+          simp only [adv_noBad _ _ g5, ok_bind]
+          refine ⟨rest, nodes', ?_, by simpa using g6⟩
+          simp [enc, assert_and_cunsume_st]
+        | _ => simp [enc]
+
 end RefineAscTop
